@@ -141,7 +141,7 @@ func (it *itBase) checkKey(key []byte) bool {
 		startok = bytes.Compare(key, it.start) >= 0
 	}
 	if it.end != nil {
-		endok = bytes.Compare(key, it.end) <= 0
+		endok = bytes.Compare(key, it.end) < 0
 	}
 	ok := startok && endok
 	return ok
